@@ -41,12 +41,28 @@ def program_cases(ctx, rnd, n, max_subsets=8, prefix="P"):
     return cases
 
 
+def payload_cases(rnd, n, prefix="PV"):
+    """Programs that read the fields of a nullable array directly: whatever is stored under a null is part of the
+    input (the exported model receives it as x_values), so eager evaluation must see the same payload."""
+    out = []
+    for i in range(n):
+        d = rnd.choice(["nfloat64", "nfloat32", "nint64"])
+        sh = [rnd.choice([2, 3, 4])]
+        x = ops.tensor(rnd, d, sh, "small", payload=None)
+        x["mask"] = [True] + [rnd.random() < 0.4 for _ in range(sh[0] - 1)]
+        form = rnd.choice(["out = x.values * 2", "out = ndx.isfinite(x.values)", "out = [x.values + 1, x.null]", "out = ndx.where(x.null, x.values, x.values + 1)"])
+        out.append(families.mkcase(f"{prefix}-{i}", {"x": x}, form, None, {"func": "fields", "dtype": d, "dclass": family.dclass(d)}, rnd, symbolic=False))
+    return out
+
+
 def function_cases(rnd, scale):
     cs = (families.elementwise_cases(rnd, 120 * scale, prefix="PE", nullable_p=0.2)
           + families.reduction_cases(rnd, 100 * scale, prefix="PR", nullable_p=0.1)
           + families.layout_cases(rnd, 100 * scale, prefix="PL")
           + families.getitem_cases(rnd, 100 * scale, prefix="PG")
           + families.sorting_cases(rnd, 60 * scale, prefix="PS", max_len=12)
+          + [c for c in families.sorting_cases(rnd, 90 * scale, prefix="PSN", max_len=8, dtypes=["nfloat64", "nfloat32", "nint64"]) if c["meta"]["func"] in ("sort", "argsort")]
+          + payload_cases(rnd, 30 * scale)
           + families.setitem_cases(rnd, 60 * scale, prefix="PW")
           + families.creation_cases(rnd, 60 * scale, prefix="PC"))
     # programs that read shapes / values in Python are not traceable by construction
